@@ -240,7 +240,10 @@ def run(tier):
             selftest(conc, [h], quote=q)
         # every other document is loaded with position/comment bookkeeping on: hidden keys everywhere
         ld = loads if j % 4 < 2 else impl.loader(include_position=True, include_comments=(j % 4 == 3), expand_includes=False)
-        check_doc(ck, conc, ld, impl.dumper(quote=q), h, "walk", quote=q)
+        # the content of the text must not depend on the layout options either
+        lay = [{}, {"align_values": True, "indent": 2}, {"align_values": True, "indent": 1, "spacer": "\t"}, {"indent": 0},
+               {"align_values": True, "indent": 3, "newlinechar": "\r\n"}, {"align_values": True, "indent": 0}][j % 6]
+        check_doc(ck, conc, ld, impl.dumper(quote=q, **lay), h, "walk", quote=q)
         ck.nontrivial(h[:-1])
     ck.sample({"events": hs[0][-1]["events"][:5]})
     # edit histories through the dict API
